@@ -27,15 +27,24 @@ META = {
                   "Option sets: categorized, uncategorized, platform, platform/topology, actor, vm, smpi, smpi/internals, smpi/computing, "
                   "smpi/sleeping, smpi/group, smpi/display-sizes, basic, precision, disable-destroy, disable_link, disable_power. A run that "
                   "aborts inside the tracing code (uncaught TracingError, assertion in src/instr) is reported too: no well-formed trace exists.",
-    "level_note": "Judged clauses are exactly those of the statement; link-key pairing, field-count mismatches, open states at the end and "
+    "level_note": "Judged clauses are exactly those of the statement (definition before use incl. kind and live parent, non-decreasing dates, "
+                  "no use after destruction, no PopState on an empty stack); link-key pairing, field-count mismatches, states left open and "
                   "type/container-type consistency are counted, not judged. With tracing/disable-destroy no destruction is written, so the "
-                  "use-after-destroy clause is vacuous there. Deadlocking programs are not generated. MPI runs use the hooks flavour only "
-                  "(SMPI under ASan reports in the sigaltstack interceptor); S4U runs use hooks plus a 10% ASan+UBSan leg.",
+                  "use-after-destroy clause is vacuous there. A run that dies is charged to tracing only if the same program finishes without "
+                  "any tracing option (differential baseline); deadlocking programs are discarded. 21 open known-finding entries (17 root causes) exist on this tree; "
+                  "3 cases out of 4 ('tame') leave out the workload features that trigger the aborting ones (routers, sibling zones + "
+                  "topology, speed/bandwidth changes without the resource variables, categories without uncategorized, maestro comms, actor "
+                  "migration across zone levels, auto-restart, kills, tracing/vm) so that the rest of the tracing code is still observed; 1 "
+                  "out of 4 ('wild') keeps everything, VERIF_C47_WILD=1 makes every case wild (use it once the fixes are in). Keys of "
+                  "PopState/date violations carry the context features the open findings need, so the same rule in another context is a "
+                  "new violation. MPI runs use the hooks flavour only (SMPI under ASan reports in the sigaltstack interceptor); S4U runs "
+                  "use hooks plus a 10% ASan+UBSan leg (thread contexts). The validator is self-tested on every run: 7 corruptions of a "
+                  "real clean trace must each be answered with the expected rule.",
     "rule": "case = (program, tracing option set); non-trivial = the run completed, its trace was validated to the last line, holds >= 20 events "
             "and reaches a date > 0; distinct by (program, options)",
     "assumptions": ["a trace line is judged only through the field names announced by the file's own header",
                     "container 0 / type 0 are the implicit Paje root"],
-    "ready": False,
+    "ready": True,
 }
 
 MPI_PLATFORMS = [
@@ -89,8 +98,6 @@ def context_features(w, v):
             f.append("sendto")
         if any(k in text for k in ("\nhostoff", "\nlinkoff", "\nP H ", "\nP K ")):
             f.append("failures")
-        if "\nmigrateother " in text:
-            f.append("migrate-other")
         if "\nexecs " in text:
             f.append("async-exec")
     elif v.key.startswith("TIME_BACKWARDS:late=") and "Variable" in v.key:
@@ -117,7 +124,7 @@ class Runner:
         return os.path.join(self.tmp, "%s-%d-%s.trace" % (tag, os.getpid(), hashlib.sha1(("%s/%d" % (tag, self.n)).encode()).hexdigest()[:10]))
 
     # ---- judge one trace -------------------------------------------------------------------------------------
-    def judge(self, kind, witness, res, trace, finished, baseline=None):
+    def judge(self, kind, witness, res, trace, finished, baseline=None, retry=None):
         """baseline(): re-runs the same program without any tracing option, returns True when that run finishes."""
         ctx = self.ctx
         ctx.evaluation()
@@ -145,7 +152,11 @@ class Runner:
                           dict(witness, stderr_tail=(res.err or "")[-1500:]))
         if not os.path.exists(trace):
             if not aborted:
-                ctx.violation("C47:%s:NO_TRACE" % kind, "run finished but wrote no trace file", witness)
+                if retry is not None:
+                    # the scratch directory may have been swept by somebody else's cleanup on this shared machine: run once more
+                    ctx.count("runs.retried_missing_trace")
+                    return retry()
+                ctx.violation("C47:%s:NO_TRACE" % kind, "run finished but wrote no trace file (twice)", witness)
             return None
         rep, lines = paje.validate_file(trace)
         ctx.count("traces.validated")
@@ -181,8 +192,9 @@ class Runner:
         return rep
 
     # ---- S4U -------------------------------------------------------------------------------------------------
-    def run_s4u(self, text, opts, flavour="hooks", kind="s4u"):
+    def run_s4u(self, text, opts, flavour="hooks", kind="s4u", second=False):
         exe = build.harness("trace.cpp", flavour)
+        os.makedirs(self.tmp, exist_ok=True)
         trace = self.path("s")
         cmd = [exe, BASE_LOG, "--cfg=tracing:yes", "--cfg=tracing/filename:" + trace] + ["--cfg=" + o for o in opts]
         if flavour != "hooks":
@@ -196,7 +208,8 @@ class Runner:
             c2 = [c for c in cmd if not c.startswith("--cfg=tracing")]
             r2 = proc.run(c2, stdin=text, timeout=300)
             return None if r2.timed_out else (r2.rc == 0 and "END " in (r2.out or "") and "Deadlock detected" not in (r2.err or ""))
-        return self.judge(kind, w, res, trace, "END " in (res.out or ""), baseline)
+        return self.judge(kind, w, res, trace, "END " in (res.out or ""), baseline,
+                          None if second else (lambda: self.run_s4u(text, opts, flavour, kind, True)))
 
     # ---- MPI -------------------------------------------------------------------------------------------------
     def hostfile(self, hosts, np_):
@@ -207,8 +220,9 @@ class Runner:
                     f.write("\n".join(hosts) + "\n")
         return p
 
-    def run_mpi(self, m, opts):
+    def run_mpi(self, m, opts, second=False):
         exe = build.smpicc("mpi/tracemix.c", "hooks")
+        os.makedirs(self.tmp, exist_ok=True)
         plat, hosts = MPI_PLATFORMS[m["plat"]]
         if hosts is None:
             hosts = ["node-%d.1core.org" % i for i in range(3)] + ["node-%d.2cores.org" % i for i in range(3)]
@@ -226,7 +240,7 @@ class Runner:
             c2 = [c for c in cmd if not c.startswith("--cfg=tracing")]
             r2 = proc.run(c2, timeout=400, cwd=self.tmp)
             return None if r2.timed_out else (r2.rc == 0 and len(re.findall(r"^DONE \d+", r2.out or "", re.M)) == m["np"])
-        return self.judge("mpi", w, res, trace, done == m["np"], baseline)
+        return self.judge("mpi", w, res, trace, done == m["np"], baseline, None if second else (lambda: self.run_mpi(m, opts, True)))
 
 
 def gen_mpi(rng, opts, tame):
@@ -269,6 +283,8 @@ DIRECTED_S4U = [
     ("killed-in-unmatched-put", D_PLAT2 + "script 0 h0 1 0 1.0 0\nput mb 1000.0 - 5.0\nscript 1 h1 1 0 -1 0\nsleep 2\nend\n", ["tracing/actor:yes"]),
     ("async-exec-test-then-wait", D_PLAT2 + "script 0 h0 1 0 -1 0\nexecs 1000000000.0 - 2.0 0.5\nend\n", ["tracing/actor:yes"]),
     ("migrate-a-sleeping-actor", D_PLAT2 + "script 0 h0 1 0 -1 0\nsleep 2\nscript 1 h1 1 0 -1 0\nsleep 1\nmigrateother 0 h1\nend\n", ["tracing/actor:yes"]),
+    ("vm-created-late", D_PLAT2 + "script 0 h0 1 0 -1 0\nsleep 1\nvmcreate vm0 h1 1\nvmstart vm0\nsleep 1\nvmdestroy vm0\nend\n", ["tracing/platform:yes"]),
+    ("vm-on-host-with-pstate", D_PLAT2 + "script 0 h0 1 0 -1 0\npstate h0 1\nsleep 1\nvmcreate vm0 h0 1\nvmstart vm0\nsleep 1\nend\n", ["tracing/uncategorized:yes"]),
     # well-formed ones
     ("maestro-exec", D_PLAT2 + "M exec h0 1000000000.0 -\nscript 0 h1 1 0 -1 0\nsleep 2\nend\n", ["tracing/actor:yes"]),
     ("plain-uncat", D_PLAT2 + "script 0 h0 1 0 -1 0\nexec 1000000000.0 -\nput mb 1000000.0 - 5.0\nscript 1 h1 1 0 -1 0\nget mb 5.0\nexec 500000000.0 -\nend\n",
@@ -389,8 +405,8 @@ def run(ctx):
         for fl in ("hooks",) if NO_ASAN else ("hooks", "asan"):
             build.harness("trace.cpp", fl)
         build.smpicc("mpi/tracemix.c", "hooks")
-        n_s4u = ctx.size(220, 6000)
-        n_mpi = ctx.size(50, 1200)
+        n_s4u = ctx.size(220, 30000)
+        n_mpi = ctx.size(50, 5000)
         jobs = []
         for name, text, opts in DIRECTED_S4U:
             jobs.append(("s4u", text, opts, "hooks", "s4u"))
